@@ -237,6 +237,14 @@ def case_input(case, **extra):
     return d
 
 
+def brief(case, **extra):
+    """short rendering for obligation details (the full table goes into failing-input replays only)."""
+    d = {'labels': [repr(x) for x in case['labels']], 'kinds': case['kinds'], 'config': case['config'],
+         'seed': case['seed'], 'rows': len(case['cols'][0])}
+    d.update(extra)
+    return d
+
+
 def case_from_input(inp):
     return {'labels': [dec_label(t) for t in inp['labels']],
             'cols': [[vc.h2f(h) for h in c] for c in inp['cols_hex']], 'kinds': inp.get('kinds', []),
@@ -297,12 +305,25 @@ def real_sample(model, case, n, first):
     return out, rec.calls
 
 
-def is_const_uni(uni):
+_QGRID = np.linspace(0.002, 0.998, 84)
+
+
+def col_status(uni, train):
+    """'const'      : the TRAINING column is constant (the model's `Uni.const`);
+       'degenerate' : the fitted marginal is not a continuous law at binary64 resolution (percent_point not strictly
+                      increasing / not finite on the grid) — e.g. scipy's beta.fit collapsing on heavy-tailed data;
+                      the statistical clauses (KS, Kendall value) and the IsQuantileOf validation do not apply;
+       'regular'    : otherwise."""
+    train = np.asarray(train, dtype=float)
+    if np.all(train == train[0]):
+        return 'const'
     try:
-        p = np.asarray(uni.percent_point(np.array([0.1, 0.5, 0.9])), dtype=float)
-        return bool(p[0] == p[1] == p[2])
+        p = np.asarray(uni.percent_point(_QGRID), dtype=float)
     except Exception:
-        return False
+        return 'degenerate'
+    if not (np.all(np.isfinite(p)) and np.all(np.diff(p) > 0)):
+        return 'degenerate'
+    return 'regular'
 
 
 # --------------------------------------------------------------------------------------------- plan terms
@@ -486,7 +507,7 @@ def tie_case(ctx, lean, case, ns, note):
         model, X = fit_model(case)
     except Exception as e:  # noqa
         ctx.count('fit-raised:' + type(e).__name__)
-        note('corr:fit-columns', {'case': case_input(case), 'real': 'fit raised ' + repr(e)[:200]})
+        note('corr:fit-columns', {'case': brief(case), 'real': 'fit raised ' + repr(e)[:200]})
         return
     unis = list(model.univariates)
     for u in unis:
@@ -505,18 +526,20 @@ def tie_case(ctx, lean, case, ns, note):
         mcols, mun = ws[1::2], ws[2::2]
         ok_fit = mcols == real_cols and len(unis) == d
         for j in range(d if ok_fit else 0):
-            rc = is_const_uni(unis[j])
             if mun[j].startswith('C'):
+                # the model says: trained on constant c => percent_point is constantly c
                 c = vc.h2f(mun[j][1:])
-                p = np.asarray(unis[j].percent_point(np.array([0.25, 0.75])), dtype=float)
-                ok_fit = ok_fit and rc and bits_equal(p, np.full(2, c))
+                p = np.asarray(unis[j].percent_point(np.array([0.001, 0.25, 0.75, 0.999])), dtype=float)
+                ok_fit = ok_fit and bits_equal(p, np.full(4, c))
             else:
-                ok_fit = ok_fit and (not rc) and mun[j] == 'E%d' % j
+                ok_fit = ok_fit and mun[j] == 'E%d' % j
     if not ok_fit:
-        note('corr:fit-columns', {'case': case_input(case), 'model': reply[:300], 'real_columns': real_cols,
-                                  'real_constant': [is_const_uni(u) for u in unis]})
-    nonconst = [j for j in range(d) if not is_const_uni(unis[j])]
-    validate_assumptions(ctx, case, unis, nonconst, note)
+        note('corr:fit-columns', {'model': reply[:200], 'real_columns': real_cols, 'case': brief(case)})
+    status = [col_status(unis[j], case['cols'][j]) if j < len(unis) else 'const' for j in range(d)]
+    for sname in status:
+        ctx.count('column-status:' + sname)
+    nonconst = [j for j in range(d) if status[j] == 'regular']
+    validate_assumptions(ctx, case, unis, status, note)
     # --- samples
     first = True
     for n in ns:
@@ -526,7 +549,7 @@ def tie_case(ctx, lean, case, ns, note):
         try:
             out, calls = real_sample(model, case, n, first)
         except Exception as e:  # noqa
-            note('corr:schema', {'case': case_input(case, n=n), 'real': 'sample raised ' + repr(e)[:300]})
+            note('corr:schema', {'case': brief(case, n=n), 'real': 'sample raised ' + repr(e)[:300]})
             first = False
             continue
         # draw request
@@ -535,7 +558,7 @@ def tie_case(ctx, lean, case, ns, note):
                  and not calls[0]['mean'].any() and bits_equal(calls[0]['cov'], corr)
                  and calls[0]['out'].shape == (n, d) and calls[0]['out'].dtype == np.float64)
         if not okreq:
-            note('corr:draw-request', {'case': case_input(case, n=n), 'calls': [
+            note('corr:draw-request', {'case': brief(case, n=n), 'calls': [
                 {'size': c['size'], 'mean': c['mean'].tolist(), 'out_shape': list(c['out'].shape)} for c in calls]})
             first = False
             continue
@@ -544,12 +567,12 @@ def tie_case(ctx, lean, case, ns, note):
             rep = np.random.RandomState(case['seed'][1]).multivariate_normal(np.zeros(d), corr, size=n)
             ctx.count('draw-replayed-from-seed')
             if not bits_equal(rep, draws):
-                note('corr:draw-replay', {'case': case_input(case, n=n), 'first_diff': first_diff(rep.ravel(), draws.ravel())})
+                note('corr:draw-replay', {'first_diff': first_diff(rep.ravel(), draws.ravel()), 'case': brief(case, n=n)})
         first = False
         # schema of the real output
         probs = schema_problems(model, case, out, n)
         if probs:
-            note('corr:schema', {'case': case_input(case, n=n), 'problems': probs})
+            note('corr:schema', {'problems': probs[:3], 'case': brief(case, n=n)})
         # plan
         reply = lean.ask(table_request('sample', case, n))
         try:
@@ -565,7 +588,7 @@ def tie_case(ctx, lean, case, ns, note):
                 if not bits_equal(want, got):
                     raise ValueError('column %d (%r): %s; plan %s' % (j, dec_label(lab), first_diff(want, got), cells[:1]))
         except Exception as e:  # noqa
-            note('corr:sample-plan', {'case': case_input(case, n=n), 'diff': str(e)[:400]})
+            note('corr:sample-plan', {'diff': str(e)[:380], 'case': brief(case, n=n)})
             continue
         # norm.cdf on the recorded draws: strictly increasing, inside (0,1)
         zs = np.sort(draws.ravel())
@@ -581,7 +604,7 @@ def tie_case(ctx, lean, case, ns, note):
                 r2 = lean.ask('gs kendall %d ' % n + ' '.join(vc.f2h(a) + ' ' + vc.f2h(b) for a, b in zip(draws[:, j], draws[:, k])))
                 ctx.count('kendall-sample-pairs')
                 if r1 != r2 or not r1.startswith('ok'):
-                    note('corr:kendall-sample', {'case': case_input(case, n=n), 'columns': [j, k], 'output': r1, 'draws': r2})
+                    note('corr:kendall-sample', {'columns': [j, k], 'output': r1, 'draws': r2, 'case': brief(case, n=n)})
             else:
                 ctx.count('kendall-sample-skipped-float-ties')
         if len(ctx.samples) < 4 and len(nonconst) >= 2:
@@ -608,26 +631,35 @@ def first_diff(a, b):
     return 'equal'
 
 
-def validate_assumptions(ctx, case, unis, nonconst, note):
-    """IsQuantileOf on the real fitted objects: percent_point non-decreasing on a grid, cdf(percent_point(q)) = q."""
-    q = np.linspace(0.002, 0.998, 84)
-    for j in nonconst:
+def validate_assumptions(ctx, case, unis, status, note):
+    """IsQuantileOf on the real fitted objects: percent_point non-decreasing on a grid and, for the fitted marginals
+    that are continuous laws at binary64 resolution ('regular'), cdf(percent_point(q)) = q."""
+    q = _QGRID
+    for j, stt in enumerate(status):
+        if stt == 'const':
+            continue
         u = unis[j]
         try:
             p = np.asarray(u.percent_point(q), dtype=float)
+            fin = np.isfinite(p)
+            mono = bool(np.all(np.diff(p[fin]) >= 0))
+            if stt == 'degenerate':
+                ctx.count('quantile-pair:degenerate-fit-monotone-only')
+                if not mono:
+                    note('assume:quantile-pair', {'column': j, 'univariate': type(u).__name__,
+                                                  'what': 'percent_point decreases', 'case': brief(case)})
+                continue
             c = np.asarray(u.cdf(p), dtype=float)
         except Exception as e:  # noqa
-            note('assume:quantile-pair', {'case': case_input(case), 'column': j, 'raised': repr(e)[:200]})
+            note('assume:quantile-pair', {'column': j, 'raised': repr(e)[:200], 'case': brief(case)})
             continue
         ctx.count('quantile-pair-validated')
-        strict = bool(np.all(np.diff(p) > 0))
-        ctx.count('ppf-strictly-increasing-on-grid' if strict else 'ppf-flat-somewhere-on-grid')
-        ok = bool(np.all(np.isfinite(p)) and np.all(np.diff(p) >= 0) and np.max(np.abs(c - q)) <= 1e-6)
+        ok = bool(mono and np.all(np.isfinite(c)) and np.max(np.abs(c - q)) <= 1e-6)
         if not ok:
             i = int(np.argmax(np.abs(c - q))) if np.all(np.isfinite(c)) else 0
-            note('assume:quantile-pair', {'case': case_input(case), 'column': j, 'univariate': type(u).__name__,
-                                          'q': float(q[i]), 'ppf': float(p[i]), 'cdf_of_ppf': float(c[i]),
-                                          'monotone': bool(np.all(np.diff(p) >= 0))})
+            note('assume:quantile-pair', {'column': j, 'univariate': type(u).__name__, 'q': float(q[i]),
+                                          'ppf': float(p[i]), 'cdf_of_ppf': float(c[i]), 'monotone': mono,
+                                          'case': brief(case)})
 
 
 def kendall_counter(ctx, lean, note):
@@ -724,7 +756,9 @@ def oracle_case(ctx, case, stats, schema_ns, big, only=None):
         ctx.fail_input(ep, case_input(case, n=n), obs, 'schema', f'{ep}:schema-{what}')
     if any(w in ('type', 'labels', 'rows', 'dtype') for w, _ in probs):
         return
-    nonconst = [j for j in range(d) if not is_const_uni(unis[j])]
+    status = [col_status(unis[j], case['cols'][j]) for j in range(d)]
+    stats['degenerate_fitted_marginals'] = stats.get('degenerate_fitted_marginals', 0) + status.count('degenerate')
+    nonconst = [j for j in range(d) if status[j] == 'regular']
     eps = dkw_eps(n) + 1e-4
     cols = {j: out.iloc[:, j].to_numpy() for j in range(d)}
     # marginals: KS distance to the FITTED marginal
